@@ -30,15 +30,18 @@ theorem startAcc_mode (S : TSys σ κ) (mode : CacheMode) (s₀ : σ) :
 theorem startAcc_marked (S : TSys σ κ) (mode : CacheMode) (hm : ExactCache S mode) (s₀ : σ) (k : κ) :
     Marked S (startAcc S mode s₀).cache k ↔ k = S.key s₀ := marked_fresh_iff S mode hm s₀ k
 
-theorem exhaustive_of_binv {S : TSys σ κ} (hc : Congruent S) {s₀ : σ} {c : Cache κ} {E : List σ}
+theorem exhaustive_of_binv {S : TSys σ κ} {Inv : σ → Prop} (hc : CongruentOn S Inv) (hcl : InvClosed S Inv)
+    {s₀ : σ} (h0 : Inv s₀) {c : Cache κ} {E : List σ} (hE : ∀ e ∈ E, Inv e)
     (hb : BInv S [] c E) (hs : s₀ ∈ E) :
     ∀ x, ReachC S s₀ x → (∃ e ∈ E, S.key e = S.key x) ∧ isFail (S.verdict x) = false := by
   intro x hx
   induction hx with
   | refl => exact ⟨⟨s₀, hs, rfl⟩, hb.noFail _ hs⟩
-  | @step y x cs _ hv hsucc hmem ih =>
+  | @step y x cs hy hv hsucc hmem ih =>
     obtain ⟨⟨e, he, hk⟩, _⟩ := ih
-    obtain ⟨hve, _, hsucc', _⟩ := hc y e hk.symm
+    have hiy : Inv y := inv_of_reachC hcl h0 hy
+    have hix : Inv x := hcl y cs hiy hsucc x hmem
+    obtain ⟨hve, _, hsucc', _⟩ := hc y e hiy (hE e he) hk.symm
     obtain ⟨cb, hcb, hkeys⟩ := hsucc' cs hsucc
     have hkx : S.key x ∈ cb.map S.key := by
       rw [← hkeys]; exact List.mem_map_of_mem hmem
@@ -46,7 +49,7 @@ theorem exhaustive_of_binv {S : TSys σ κ} (hc : Congruent S) {s₀ : σ} {c : 
     have hmk : Marked S c (S.key c') := hb.closed e he (hve ▸ hv) cb hcb c' hc'
     rcases hb.origin _ hmk with ⟨e', he', hk'⟩ | ⟨x', hx', _⟩
     · have hkk : S.key e' = S.key x := by rw [hk', hck]
-      exact ⟨⟨e', he', hkk⟩, isFail_congr hc hkk (hb.noFail e' he')⟩
+      exact ⟨⟨e', he', hkk⟩, isFail_congr hc (hE e' he') hix hkk (hb.noFail e' he')⟩
     · simp at hx'
 
 theorem exhaustive_of_closedD {S : TSys σ κ} {s₀ : σ} {E : List σ} (hcl : ClosedD S E) (hs : s₀ ∈ E) :
@@ -141,14 +144,24 @@ theorem search_evald_nodup_keys (S : TSys σ κ) (strat : Strat) (mode : CacheMo
       simp only [List.nil_append, List.mem_singleton] at hx
       subst hx; exact hmk
 
+/-- `search_ok_exhaustive` with the key congruence relativised to an invariant of the explored states -/
+theorem search_ok_exhaustive_inv (S : TSys σ κ) (Inv : σ → Prop) (hc : CongruentOn S Inv)
+    (hcl : InvClosed S Inv) (strat : Strat) (mode : CacheMode) (hm : ExactCache S mode) (fuel : Nat)
+    (s₀ : σ) (h0 : Inv s₀) (a : Acc σ κ)
+    (h : search S strat fuel s₀ (Acc.fresh mode) = some (.ok, a)) :
+    ∀ x, ReachC S s₀ x → (∃ e ∈ a.evald, S.key e = S.key x) ∧ isFail (S.verdict x) = false := by
+  obtain ⟨hb, hs⟩ := search_ok_binv S strat mode hm fuel s₀ a h
+  have hE : ∀ e ∈ a.evald, Inv e := fun e he =>
+    inv_of_reachC hcl h0 (search_evald_reachable S strat mode fuel s₀ _ a h e he)
+  exact exhaustive_of_binv hc hcl h0 hE hb hs
+
 /-- (exhaustive, exact cache) an `ok` run evaluated a key-representative of every reachable state and
     none of the reachable states fails -/
 theorem search_ok_exhaustive (S : TSys σ κ) (hc : Congruent S) (strat : Strat) (mode : CacheMode)
     (hm : ExactCache S mode) (fuel : Nat) (s₀ : σ) (a : Acc σ κ)
     (h : search S strat fuel s₀ (Acc.fresh mode) = some (.ok, a)) :
-    ∀ x, ReachC S s₀ x → (∃ e ∈ a.evald, S.key e = S.key x) ∧ isFail (S.verdict x) = false := by
-  obtain ⟨hb, hs⟩ := search_ok_binv S strat mode hm fuel s₀ a h
-  exact exhaustive_of_binv hc hb hs
+    ∀ x, ReachC S s₀ x → (∃ e ∈ a.evald, S.key e = S.key x) ∧ isFail (S.verdict x) = false :=
+  search_ok_exhaustive_inv S (fun _ => True) hc.on (invClosed_true S) strat mode hm fuel s₀ trivial a h
 
 /-- (exhaustive, cache disabled) without a cache every reachable state itself is evaluated; no
     congruence needed -/
@@ -175,19 +188,27 @@ theorem search_err_genuine (S : TSys σ κ) (strat : Strat) (mode : CacheMode) (
       (by intro e he; rw [startAcc_evald] at he; simp at he)).2 msg e rfl
     exact ⟨this.1, this.2, hr e this.1⟩
 
+theorem search_not_ok_of_reachable_fail_inv (S : TSys σ κ) (Inv : σ → Prop) (hc : CongruentOn S Inv)
+    (hcl : InvClosed S Inv) (strat : Strat) (mode : CacheMode)
+    (hm : ExactCache S mode ∨ mode = .disabled) (fuel : Nat) (s₀ x : σ) (h0 : Inv s₀) (a : Acc σ κ)
+    (hx : ReachC S s₀ x) (hf : isFail (S.verdict x) = true) :
+    search S strat fuel s₀ (Acc.fresh mode) ≠ some (.ok, a) := by
+  intro h
+  rcases hm with hm | rfl
+  · have := (search_ok_exhaustive_inv S Inv hc hcl strat mode hm fuel s₀ h0 a h x hx).2
+    rw [hf] at this; cases this
+  · have := (search_ok_exhaustive_disabled S strat fuel s₀ a h x hx).2
+    rw [hf] at this; cases this
+
 /-- (Ok exactly when nothing reachable fails – the converse direction) if some reachable state fails, a
     run that finishes (enough fuel, no panic) with an exact cache and a congruent key, or with no
     cache, does not return `ok` -/
 theorem search_not_ok_of_reachable_fail (S : TSys σ κ) (hc : Congruent S) (strat : Strat) (mode : CacheMode)
     (hm : ExactCache S mode ∨ mode = .disabled) (fuel : Nat) (s₀ x : σ) (a : Acc σ κ)
     (hx : ReachC S s₀ x) (hf : isFail (S.verdict x) = true) :
-    search S strat fuel s₀ (Acc.fresh mode) ≠ some (.ok, a) := by
-  intro h
-  rcases hm with hm | rfl
-  · have := (search_ok_exhaustive S hc strat mode hm fuel s₀ a h x hx).2
-    rw [hf] at this; cases this
-  · have := (search_ok_exhaustive_disabled S strat fuel s₀ a h x hx).2
-    rw [hf] at this; cases this
+    search S strat fuel s₀ (Acc.fresh mode) ≠ some (.ok, a) :=
+  search_not_ok_of_reachable_fail_inv S (fun _ => True) hc.on (invClosed_true S) strat mode hm fuel s₀ x
+    trivial a hx hf
 
 /-- (collected set is exact) the collected states are evaluated states satisfying the collect
     predicate, one per key, and every evaluated state satisfying it is represented -/
@@ -226,9 +247,9 @@ theorem search_statuses_exact (S : TSys σ κ) (strat : Strat) (mode : CacheMode
     rw [search_bfs_eq] at h
     exact (bfs_accInv S (StatInv S) (fun _ _ h => h) (statInv_check S) fuel [s₀] _ r a h h0).2 status
 
-/-- (BFS and DFS agree) with an exact cache and a congruent key two `ok` runs evaluate the same set of keys -/
-theorem bfs_dfs_same_keys (S : TSys σ κ) (hc : Congruent S) (mode : CacheMode) (hm : ExactCache S mode)
-    (f₁ f₂ : Nat) (s₀ : σ) (a₁ a₂ : Acc σ κ)
+theorem bfs_dfs_same_keys_inv (S : TSys σ κ) (Inv : σ → Prop) (hc : CongruentOn S Inv)
+    (hcl : InvClosed S Inv) (mode : CacheMode) (hm : ExactCache S mode)
+    (f₁ f₂ : Nat) (s₀ : σ) (h0 : Inv s₀) (a₁ a₂ : Acc σ κ)
     (h₁ : search S .dfs f₁ s₀ (Acc.fresh mode) = some (.ok, a₁))
     (h₂ : search S .bfs f₂ s₀ (Acc.fresh mode) = some (.ok, a₂)) :
     ∀ k, k ∈ a₁.evald.map S.key ↔ k ∈ a₂.evald.map S.key := by
@@ -237,18 +258,25 @@ theorem bfs_dfs_same_keys (S : TSys σ κ) (hc : Congruent S) (mode : CacheMode)
   · intro hk
     obtain ⟨e, he, rfl⟩ := List.mem_map.mp hk
     have hr := search_evald_reachable S .dfs mode f₁ s₀ _ a₁ h₁ e he
-    obtain ⟨⟨e', he', hk'⟩, _⟩ := search_ok_exhaustive S hc .bfs mode hm f₂ s₀ a₂ h₂ e hr
+    obtain ⟨⟨e', he', hk'⟩, _⟩ := search_ok_exhaustive_inv S Inv hc hcl .bfs mode hm f₂ s₀ h0 a₂ h₂ e hr
     exact List.mem_map.mpr ⟨e', he', hk'⟩
   · intro hk
     obtain ⟨e, he, rfl⟩ := List.mem_map.mp hk
     have hr := search_evald_reachable S .bfs mode f₂ s₀ _ a₂ h₂ e he
-    obtain ⟨⟨e', he', hk'⟩, _⟩ := search_ok_exhaustive S hc .dfs mode hm f₁ s₀ a₁ h₁ e hr
+    obtain ⟨⟨e', he', hk'⟩, _⟩ := search_ok_exhaustive_inv S Inv hc hcl .dfs mode hm f₁ s₀ h0 a₁ h₁ e hr
     exact List.mem_map.mpr ⟨e', he', hk'⟩
 
-/-- (cache modes agree) an `ok` run with an exact cache and an `ok` run with the cache disabled evaluate
-    the same set of keys -/
-theorem cache_modes_same_keys (S : TSys σ κ) (hc : Congruent S) (s₁ s₂ : Strat) (mode : CacheMode)
-    (hm : ExactCache S mode) (f₁ f₂ : Nat) (s₀ : σ) (a₁ a₂ : Acc σ κ)
+/-- (BFS and DFS agree) with an exact cache and a congruent key two `ok` runs evaluate the same set of keys -/
+theorem bfs_dfs_same_keys (S : TSys σ κ) (hc : Congruent S) (mode : CacheMode) (hm : ExactCache S mode)
+    (f₁ f₂ : Nat) (s₀ : σ) (a₁ a₂ : Acc σ κ)
+    (h₁ : search S .dfs f₁ s₀ (Acc.fresh mode) = some (.ok, a₁))
+    (h₂ : search S .bfs f₂ s₀ (Acc.fresh mode) = some (.ok, a₂)) :
+    ∀ k, k ∈ a₁.evald.map S.key ↔ k ∈ a₂.evald.map S.key :=
+  bfs_dfs_same_keys_inv S (fun _ => True) hc.on (invClosed_true S) mode hm f₁ f₂ s₀ trivial a₁ a₂ h₁ h₂
+
+theorem cache_modes_same_keys_inv (S : TSys σ κ) (Inv : σ → Prop) (hc : CongruentOn S Inv)
+    (hcl : InvClosed S Inv) (s₁ s₂ : Strat) (mode : CacheMode)
+    (hm : ExactCache S mode) (f₁ f₂ : Nat) (s₀ : σ) (h0 : Inv s₀) (a₁ a₂ : Acc σ κ)
     (h₁ : search S s₁ f₁ s₀ (Acc.fresh mode) = some (.ok, a₁))
     (h₂ : search S s₂ f₂ s₀ (Acc.fresh .disabled) = some (.ok, a₂)) :
     ∀ k, k ∈ a₁.evald.map S.key ↔ k ∈ a₂.evald.map S.key := by
@@ -261,8 +289,18 @@ theorem cache_modes_same_keys (S : TSys σ κ) (hc : Congruent S) (s₁ s₂ : S
   · intro hk
     obtain ⟨e, he, rfl⟩ := List.mem_map.mp hk
     have hr := search_evald_reachable S s₂ .disabled f₂ s₀ _ a₂ h₂ e he
-    obtain ⟨⟨e', he', hk'⟩, _⟩ := search_ok_exhaustive S hc s₁ mode hm f₁ s₀ a₁ h₁ e hr
+    obtain ⟨⟨e', he', hk'⟩, _⟩ := search_ok_exhaustive_inv S Inv hc hcl s₁ mode hm f₁ s₀ h0 a₁ h₁ e hr
     exact List.mem_map.mpr ⟨e', he', hk'⟩
+
+/-- (cache modes agree) an `ok` run with an exact cache and an `ok` run with the cache disabled evaluate
+    the same set of keys -/
+theorem cache_modes_same_keys (S : TSys σ κ) (hc : Congruent S) (s₁ s₂ : Strat) (mode : CacheMode)
+    (hm : ExactCache S mode) (f₁ f₂ : Nat) (s₀ : σ) (a₁ a₂ : Acc σ κ)
+    (h₁ : search S s₁ f₁ s₀ (Acc.fresh mode) = some (.ok, a₁))
+    (h₂ : search S s₂ f₂ s₀ (Acc.fresh .disabled) = some (.ok, a₂)) :
+    ∀ k, k ∈ a₁.evald.map S.key ↔ k ∈ a₂.evald.map S.key :=
+  cache_modes_same_keys_inv S (fun _ => True) hc.on (invClosed_true S) s₁ s₂ mode hm f₁ f₂ s₀ trivial
+    a₁ a₂ h₁ h₂
 
 /-- (BFS counterexamples are shortest, cache disabled) if BFS without a cache reports an error on a
     state at distance `n`, no state at a smaller distance fails -/
@@ -278,14 +316,15 @@ theorem bfs_err_min_depth_disabled (S : TSys σ κ) (fuel : Nat) (s₀ e : σ) (
     cases hx
     exact Or.inl (by simp)
 
-/-- (BFS counterexamples are shortest, exact cache, congruent key) the same with a cache -/
-theorem bfs_err_min_depth (S : TSys σ κ) (hc : Congruent S) (mode : CacheMode) (hm : ExactCache S mode)
-    (fuel : Nat) (s₀ e : σ) (msg : String) (a : Acc σ κ)
+theorem bfs_err_min_depth_inv (S : TSys σ κ) (Inv : σ → Prop) (hc : CongruentOn S Inv)
+    (hcl : InvClosed S Inv) (mode : CacheMode) (hm : ExactCache S mode)
+    (fuel : Nat) (s₀ e : σ) (h0 : Inv s₀) (msg : String) (a : Acc σ κ)
     (h : search S .bfs fuel s₀ (Acc.fresh mode) = some (.err msg e, a)) :
     ∃ n, ReachN S s₀ n e ∧ ∀ m x, m < n → ReachN S s₀ m x → isFail (S.verdict x) = false := by
   rw [search_bfs_eq] at h
   have hm' : ExactCache S (startAcc S mode s₀).cache.mode := by rw [startAcc_mode]; exact hm
-  refine bfs_minDepth_exact S hc s₀ fuel [s₀] _ msg e a h ⟨hm', ⟨?_, ?_, ?_⟩, 0, [s₀], [], rfl, ?_⟩
+  refine bfs_minDepth_exact S Inv hc hcl s₀ h0 fuel [s₀] _ msg e a h
+    ⟨hm', ⟨?_, ?_, ?_⟩, 0, [s₀], [], rfl, ?_⟩ ?_
   · intro k hk
     rw [startAcc_marked S mode hm] at hk
     exact Or.inr ⟨s₀, by simp, hk.symm⟩
@@ -298,5 +337,13 @@ theorem bfs_err_min_depth (S : TSys σ κ) (hc : Congruent S) (mode : CacheMode)
       obtain rfl : m = 0 := by omega
       cases hx
       exact Or.inr ⟨s₀, by simp, rfl⟩
+  · intro e he; rw [startAcc_evald] at he; simp at he
+
+/-- (BFS counterexamples are shortest, exact cache, congruent key) the same with a cache -/
+theorem bfs_err_min_depth (S : TSys σ κ) (hc : Congruent S) (mode : CacheMode) (hm : ExactCache S mode)
+    (fuel : Nat) (s₀ e : σ) (msg : String) (a : Acc σ κ)
+    (h : search S .bfs fuel s₀ (Acc.fresh mode) = some (.err msg e, a)) :
+    ∃ n, ReachN S s₀ n e ∧ ∀ m x, m < n → ReachN S s₀ m x → isFail (S.verdict x) = false :=
+  bfs_err_min_depth_inv S (fun _ => True) hc.on (invClosed_true S) mode hm fuel s₀ e trivial msg a h
 
 end Anysystem
